@@ -27,19 +27,19 @@ abbrev SysLose (wd : Bool) (s : Sys) : Prop := LoseInv wd s.a s.b s.ka s.kb
 abbrev SysHalf (s : Sys) : Prop := HalfInv s.a s.b s.ka s.kb
 abbrev SysAbort (s : Sys) : Prop := AbortInv s.a s.b s.ka s.kb
 
-theorem step_p (s : Sys) (ev : Ev) : (step s ev).p = s.p := by
+theorem step_p (s : Sys) (ev : Ev) : (step0 s ev).p = s.p := by
   cases ev with
   | app e op => cases e <;> rfl
   | io e i o h nr nw => cases e <;> rfl
   | timer e => cases e <;> rfl
 
-theorem run_p (evs : List Ev) (s : Sys) : (run s evs).p = s.p := by
+theorem run_p (evs : List Ev) (s : Sys) : (run0 s evs).p = s.p := by
   induction evs generalizing s with
   | nil => rfl
   | cons ev evs ih => exact (ih _).trans (step_p s ev)
 
 theorem lose_step (wd : Bool) (s : Sys) (hp : 0 < s.p.sendLimit) (ev : Ev) (hn : noise ev = true)
-    (h : SysLose wd s) : SysLose wd (step s ev) := by
+    (h : SysLose wd s) : SysLose wd (step0 s ev) := by
   cases ev with
   | app e op => simp [noise] at hn
   | io e i o hh nr nw =>
@@ -55,7 +55,7 @@ theorem lose_step (wd : Bool) (s : Sys) (hp : 0 < s.p.sendLimit) (ev : Ev) (hn :
       rw [timer_idle _ this.2]; exact h
 
 theorem half_step (s : Sys) (hp : 0 < s.p.sendLimit) (ev : Ev) (hn : noise ev = true)
-    (h : SysHalf s) : SysHalf (step s ev) := by
+    (h : SysHalf s) : SysHalf (step0 s ev) := by
   cases ev with
   | app e op => simp [noise] at hn
   | io e i o hh nr nw =>
@@ -70,13 +70,13 @@ theorem half_step (s : Sys) (hp : 0 < s.p.sendLimit) (ev : Ev) (hn : noise ev = 
     · show HalfInv s.a (timer (s.view .B)).c (timer (s.view .B)).pk (timer (s.view .B)).k
       rw [timer_idle _ this.2]; exact h
 
-theorem abort_step (s : Sys) (ev : Ev) (hn : noise ev = true) (h : SysAbort s) : SysAbort (step s ev) := by
+theorem abort_step (s : Sys) (ev : Ev) (hn : noise ev = true) (h : SysAbort s) : SysAbort (step0 s ev) := by
   cases ev with
   | app e op => simp [noise] at hn
   | io e i o hh nr nw =>
     cases e
-    · show AbortInv (io s.p (s.view .A) i o hh nr nw).c s.b (io s.p (s.view .A) i o hh nr nw).k
-        (io s.p (s.view .A) i o hh nr nw).pk
+    · show AbortInv (io0 s.p (s.view .A) i o hh nr nw).c s.b (io0 s.p (s.view .A) i o hh nr nw).k
+        (io0 s.p (s.view .A) i o hh nr nw).pk
       rw [abort_ioA s.p (s.view .A) s.b i o hh nr nw h]; exact h
     · exact abort_ioB s.p (s.view .B) s.a i o hh nr nw h
   | timer e =>
@@ -86,7 +86,7 @@ theorem abort_step (s : Sys) (ev : Ev) (hn : noise ev = true) (h : SysAbort s) :
       rw [timer_idle _ (abort_abortCallB _ _ _ _ h)]; exact h
 
 theorem P0_step (s : Sys) (hp : 0 < s.p.sendLimit) (ev : Ev) (hn : preEv .A ev = true)
-    (h : SysP0 s) : SysP0 (step s ev) := by
+    (h : SysP0 s) : SysP0 (step0 s ev) := by
   have H := h.2
   simp only [OpenC, SockOk, pending] at H
   cases ev with
@@ -109,10 +109,10 @@ theorem P0_step (s : Sys) (hp : 0 < s.p.sendLimit) (ev : Ev) (hn : preEv .A ev =
       · intro hne
         by_cases hd : d = []
         · have := h.1
-          simp only [step, Sys.put, Sys.view, appOp, hd, doWriteOp_nil] at hne ⊢
+          simp only [step0, Sys.put, Sys.view, appOp, hd, doWriteOp_nil] at hne ⊢
           exact this hne
-        · simp [step, Sys.put, Sys.view, appOp, doWriteOp, H, hd]
-      · simp only [OpenC, SockOk, pending, step, Sys.put, Sys.view, appOp, doWriteOp]
+        · simp [step0, Sys.put, Sys.view, appOp, doWriteOp, H, hd]
+      · simp only [OpenC, SockOk, pending, step0, Sys.put, Sys.view, appOp, doWriteOp]
         by_cases hd : d = [] <;> simp [H, hd]
     | writeSeq ds =>
       have : e = .A := by simpa [preEv] using hn
@@ -121,23 +121,23 @@ theorem P0_step (s : Sys) (hp : 0 < s.p.sendLimit) (ev : Ev) (hn : preEv .A ev =
       · intro hne
         by_cases hd : ds = []
         · have := h.1
-          simp only [step, Sys.put, Sys.view, appOp, hd, doWriteSeqOp_nil] at hne ⊢
+          simp only [step0, Sys.put, Sys.view, appOp, hd, doWriteSeqOp_nil] at hne ⊢
           exact this hne
-        · simp [step, Sys.put, Sys.view, appOp, doWriteSeqOp, H, hd]
-      · simp only [OpenC, SockOk, pending, step, Sys.put, Sys.view, appOp, doWriteSeqOp]
+        · simp [step0, Sys.put, Sys.view, appOp, doWriteSeqOp, H, hd]
+      · simp only [OpenC, SockOk, pending, step0, Sys.put, Sys.view, appOp, doWriteSeqOp]
         by_cases hd : ds = [] <;> simp [H, hd]
     | pause =>
       cases e
-      · exact ⟨h.1, by simp only [OpenC, SockOk, pending, step, Sys.put, Sys.view, appOp]; simp [H]⟩
-      · exact ⟨h.1, by simp only [OpenC, SockOk, pending, step, Sys.put, Sys.view, appOp]; simp [H]⟩
+      · exact ⟨h.1, by simp only [OpenC, SockOk, pending, step0, Sys.put, Sys.view, appOp]; simp [H]⟩
+      · exact ⟨h.1, by simp only [OpenC, SockOk, pending, step0, Sys.put, Sys.view, appOp]; simp [H]⟩
     | resume =>
       cases e
-      · have e1 : step s (.app .A .resume) = { s with a := { s.a with reading := true } } := by
-          simp [step, Sys.put, Sys.view, appOp, H]
+      · have e1 : step0 s (.app .A .resume) = { s with a := { s.a with reading := true } } := by
+          simp [step0, Sys.put, Sys.view, appOp, H]
         rw [e1]
         exact ⟨h.1, by simp only [OpenC, SockOk, pending]; simp [H]⟩
-      · have e1 : step s (.app .B .resume) = { s with b := { s.b with reading := true } } := by
-          simp [step, Sys.put, Sys.view, appOp, H]
+      · have e1 : step0 s (.app .B .resume) = { s with b := { s.b with reading := true } } := by
+          simp [step0, Sys.put, Sys.view, appOp, H]
         rw [e1]
         exact ⟨h.1, by simp only [OpenC, SockOk, pending]; simp [H]⟩
     | lose => simp [preEv] at hn
@@ -147,56 +147,56 @@ theorem P0_step (s : Sys) (hp : 0 < s.p.sendLimit) (ev : Ev) (hn : preEv .A ev =
 /-! ### the three close operations on a system in which nothing was closed yet -/
 
 theorem lose_entry (s : Sys) (h : SysP0 s) (hr : s.b.reading = true) (hc : LoseCfg s.b) :
-    SysLose false (step s (.app .A .lose)) := by
+    SysLose false (step0 s (.app .A .lose)) := by
   have H := h.2
   simp only [OpenC, SockOk, pending] at H
   left
   refine ⟨hc, ?_⟩
-  simp only [ClosingC, OpenC, SockOk, pending, step, Sys.put, Sys.view, appOp]
+  simp only [ClosingC, OpenC, SockOk, pending, step0, Sys.put, Sys.view, appOp]
   simp [H, hr]
 
 theorem half_entry (s : Sys) (h : SysP0 s) (hra : s.a.reading = true) (hr : s.b.reading = true)
-    (hca : LoseCfg s.a) (hc : ReplyCfg s.b) : SysHalf (step s (.app .A .loseWrite)) := by
+    (hca : LoseCfg s.a) (hc : ReplyCfg s.b) : SysHalf (step0 s (.app .A .loseWrite)) := by
   have H := h.2
   simp only [OpenC, SockOk, pending] at H
   left
   refine ⟨hc, hca, ?_⟩
-  simp only [HalfC, OpenC, SockOk, pending, step, Sys.put, Sys.view, appOp]
+  simp only [HalfC, OpenC, SockOk, pending, step0, Sys.put, Sys.view, appOp]
   simp [H, hr, hra]
 
 theorem abort_entry (s : Sys) (h : SysP0 s) (hr : s.b.reading = true) :
-    SysAbort (step s (.app .A .abort)) := by
+    SysAbort (step0 s (.app .A .abort)) := by
   have H := h.2
   simp only [OpenC, SockOk, pending] at H
   left
-  simp only [X1, AbortingC, OpenC, SockOk, step, Sys.put, Sys.view, appOp]
+  simp only [X1, AbortingC, OpenC, SockOk, step0, Sys.put, Sys.view, appOp]
   simp [H, hr]
 
 /-! ### runs -/
 
 theorem P0_run (evs : List Ev) (s : Sys) (hp : 0 < s.p.sendLimit) (hn : ∀ ev ∈ evs, preEv .A ev = true)
-    (h : SysP0 s) : SysP0 (run s evs) := by
+    (h : SysP0 s) : SysP0 (run0 s evs) := by
   induction evs generalizing s with
   | nil => exact h
   | cons ev evs ih =>
     exact ih _ (by rw [step_p]; exact hp) (fun e he => hn e (by simp [he])) (P0_step s hp ev (hn ev (by simp)) h)
 
 theorem lose_run (wd : Bool) (evs : List Ev) (s : Sys) (hp : 0 < s.p.sendLimit) (hn : ∀ ev ∈ evs, noise ev = true)
-    (h : SysLose wd s) : SysLose wd (run s evs) := by
+    (h : SysLose wd s) : SysLose wd (run0 s evs) := by
   induction evs generalizing s with
   | nil => exact h
   | cons ev evs ih =>
     exact ih _ (by rw [step_p]; exact hp) (fun e he => hn e (by simp [he])) (lose_step wd s hp ev (hn ev (by simp)) h)
 
 theorem half_run (evs : List Ev) (s : Sys) (hp : 0 < s.p.sendLimit) (hn : ∀ ev ∈ evs, noise ev = true)
-    (h : SysHalf s) : SysHalf (run s evs) := by
+    (h : SysHalf s) : SysHalf (run0 s evs) := by
   induction evs generalizing s with
   | nil => exact h
   | cons ev evs ih =>
     exact ih _ (by rw [step_p]; exact hp) (fun e he => hn e (by simp [he])) (half_step s hp ev (hn ev (by simp)) h)
 
 theorem abort_run (evs : List Ev) (s : Sys) (hn : ∀ ev ∈ evs, noise ev = true)
-    (h : SysAbort s) : SysAbort (run s evs) := by
+    (h : SysAbort s) : SysAbort (run0 s evs) := by
   induction evs generalizing s with
   | nil => exact h
   | cons ev evs ih => exact ih _ (fun e he => hn e (by simp [he])) (abort_step s ev (hn ev (by simp)) h)
